@@ -18,11 +18,11 @@ ASSUMPTIONS = ['inputs are restricted to where the operation is defined: non-deg
                'median/mad/tmean/tvariance on the output, the definitions against textbook values for unweighted samples only',
                'comparisons use rel 1e-9 (1e-7 for trimmed statistics)']
 CLASSES = {
-    'impose': {'quick': 43200, 'thorough': 240000},
-    'support': {'quick': 21600, 'thorough': 120000},
-    'robust': {'quick': 14400, 'thorough': 80000},
-    'defs': {'quick': 28800, 'thorough': 160000},
-    'metrics': {'quick': 13500, 'thorough': 60000},
+    'impose': {'quick': 43200, 'thorough': 432000},
+    'support': {'quick': 21600, 'thorough': 216000},
+    'robust': {'quick': 14400, 'thorough': 144000},
+    'defs': {'quick': 28800, 'thorough': 288000},
+    'metrics': {'quick': 13500, 'thorough': 135000},
 }
 MIN_EVENTS = {'quick': {'assert:target': 3000, 'assert:keeps': 3000, 'assert:def': 5000}}
 
